@@ -1185,3 +1185,232 @@ class OperatorApply(LabelContract):
             return {"must-raise-TypeError": False}
         con, a2, c2 = self.callee(a, case)
         return con.ensures(a2, r, cx, c2)
+
+
+# ------------------------------------------------------------------------------------------------------------
+# C10: assembly of the DMRG energy networks
+# ------------------------------------------------------------------------------------------------------------
+
+
+class Contraction:
+    """the value of ``tn ^ all`` / ``tn ^ ...``: remembers the layers of the network that was contracted"""
+
+    def __init__(self, net, layers):
+        self.net, self.layers = net, layers
+
+
+def join_ok(la, lega, lb, legb):
+    """the two legs carry the same label wherever both layers have a tensor"""
+    return Implies(And(la.present, lb.present), la.slot(lega) == lb.slot(legb))
+
+
+class DMRGContract(LabelContract):
+    property_ids = ("C10",)
+
+    def attr(self, cx, base, attr, node):
+        if isinstance(base, Ref) and base.kind == "DMRG":
+            f = cx.fields(base)
+            if attr in f:
+                return f[attr]
+            return cx.Opaque(attr)  # everything else on the solver object is numerical bookkeeping
+        return super().attr(cx, base, attr, node)
+
+    def call(self, cx, name, args, kwargs, node):
+        if name == "get_default_opts":
+            return cx.Opaque("opts")
+        if name == "__binop__":
+            op, x, y = args
+            if op == "BitXor" and is_tn(x) and not isinstance(node, ast.AugAssign) and (y is ALL or y is Ellipsis):
+                return Contraction(x, cx.fields(x)["layers"])
+            if isinstance(x, (Contraction, Opaque)) or isinstance(y, (Contraction, Opaque)):
+                if op in ("Add", "Sub", "Mult", "Div", "Pow"):
+                    return cx.Opaque("scalar")
+        if name.startswith(".") and isinstance(args[0], Ref) and args[0].kind == "DMRG":
+            if name in ("._set_bond_dim_seq", "._set_cutoff_seq"):
+                return None  # schedules: no labels involved
+        return super().call(cx, name, args, kwargs, node)
+
+    def tn_method(self, cx, m, tn, args, kwargs, node):
+        f = cx.fields(tn)
+        if m == "rand_state":
+            # leaf MPO.rand_state -> MPS_rand_state(L, ..., site_ind_id="k{}"): a new, unconjugated, well formed state
+            # with a tensor on every site on which the operator has one
+            sid = lit("k{}")
+            pres = cx.Bool("rand_state_present")
+            cx.assume(Implies(present_any(f["layers"]), pres))
+            return cx.new_obj("TN", cls="vec", _site_ind_id=sid, cyclic=f["cyclic"], L=f["L"],
+                              layers=(Layer("rand_state", ("site",), (sid,), z3.BoolVal(False), pres),))
+        if m == "identity":
+            # leaf MPO.identity -> MPO_identity_like: same declared ids, well formed, present on the same sites
+            lay = f["layers"][0]
+            return cx.new_obj("TN", cls="op", _upper_ind_id=f["_upper_ind_id"], _lower_ind_id=f["_lower_ind_id"],
+                              cyclic=f["cyclic"], L=f["L"],
+                              layers=(Layer("eye", ("up", "lo"), (f["_upper_ind_id"], f["_lower_ind_id"]),
+                                            z3.BoolVal(False), lay.present),))
+        return super().tn_method(cx, m, tn, args, kwargs, node)
+
+
+def stack_posts(d, prefix, layers, kinds_conj=None):
+    """<b| O_1 ... O_m |k> in the fixed convention: the first layer (bra) sits on the UP leg of O_1, every O_j's LO leg on the
+    UP leg of O_{j+1}, the last layer (ket) on the LO leg of O_m; all the level labels pairwise different"""
+    if len(layers) < 2 or layers[0].roles != ("site",) or layers[-1].roles != ("site",) or \
+            any(l.roles != ("up", "lo") for l in layers[1:-1]):
+        d[f"{prefix}-is-a-(bra,ops...,ket)-stack"] = False
+        return
+    b, k, ops = layers[0], layers[-1], layers[1:-1]
+    chain = [(b, "site")] + [x for o in ops for x in ((o, "up"), (o, "lo"))] + [(k, "site")]
+    levels = []
+    for j in range(0, len(chain), 2):
+        (la, lega), (lb, legb) = chain[j], chain[j + 1]
+        name = ("bra" if j == 0 else f"op{j // 2}-lower") + "-joins-" + ("ket" if j == len(chain) - 2 else f"op{j // 2 + 1}-upper")
+        d[f"{prefix}:{name}"] = join_ok(la, lega, lb, legb)
+        levels.append(lb.slot(legb))
+    allp = And(*[l.present for l in layers])
+    d[f"{prefix}:levels-pairwise-distinct"] = Implies(allp, z3.Distinct(*levels) if len(levels) > 1 else True)
+
+
+@register
+class DMRGInit(DMRGContract):
+    """DMRG.__init__: the energy network is <b|ham|k>: _b is the conjugate of _k and sits on ham's UP leg (rows), _k on
+    ham's LO leg (columns); _k keeps its site id; ham / p0 are copied, never modified"""
+
+    target = f"{DMRGF}::DMRG.__init__"
+    floor = 40
+
+    def cases(self):
+        return [NS(name=f"p0={p}", p0=p) for p in ("None", "given")]
+
+    def case_of_call(self, cx, a):
+        return NS(name="call", p0="None" if a.p0 is None else "given")
+
+    def mk_inputs(self, cx, case):
+        return with_cx(cx, dict(self=cx.new_obj("DMRG"), ham=new_op(cx, "ham"), bond_dims=cx.Opaque("bond_dims"),
+                                cutoffs=cx.Opaque("cutoffs"), bsz=cx.Opaque("bsz"), which="SA",
+                                p0=None if case.p0 == "None" else new_vec(cx, "p0")))
+
+    def requires_cx(self, cx, a, case):
+        ok = is_tn(a.ham) and cx.pre(a.ham)["cls"] == "op"
+        d = {"ham-is-an-operator": ok}
+        if ok:
+            d["wf-ham"] = wf(cx.pre(a.ham))
+        if a.p0 is not None:
+            okp = is_tn(a.p0) and cx.pre(a.p0)["cls"] == "vec"
+            d["p0-is-a-vector"] = okp
+            if okp and ok:
+                d["wf-p0"] = wf(cx.pre(a.p0))
+                d["p0-covers-the-sites-of-ham"] = Implies(present_any(cx.pre(a.ham)["layers"]),
+                                                          present_any(cx.pre(a.p0)["layers"]))
+        return d
+
+    def fresh_result(self, cx, a, case):
+        """callee use (DMRGX.__init__): new objects of the right shape; the ensures pin their contents"""
+        H = cx.pre(a.ham)
+        if a.p0 is not None:
+            K = cx.pre(a.p0)
+        else:
+            K = dict(cls="vec", _site_ind_id=lit("k{}"), cyclic=H["cyclic"], L=H["L"],
+                     layers=(Layer("rand_state", ("site",), (lit("k{}"),), z3.BoolVal(False), cx.Bool("rs_present")),))
+        k = cx.new_obj("TN", **fresh_like(cx, K, "k"))
+        b = cx.new_obj("TN", **fresh_like(cx, K, "b"))
+        h = cx.new_obj("TN", **fresh_like(cx, H, "h"))
+        e = cx.new_obj("TN", cls="plain", cyclic=H["cyclic"], L=H["L"],
+                       layers=cx.fields(b)["layers"] + cx.fields(h)["layers"] + cx.fields(k)["layers"])
+        u = fresh_id(cx)
+        cx.assume(cx.fields(b)["_site_ind_id"] == u)
+        f = cx.fields(a.self)
+        f.update(_k=k, _b=b, ham=h, TN_energy=e, cyclic=H["cyclic"], L=H["L"], energies=[], local_energies=[],
+                 total_energies=[])
+        return None
+
+    def ensures(self, a, r, cx, case):
+        S = cx.fields(a.self)
+        d = {"state-ham-and-energy-network-set": all(is_tn(S.get(k)) for k in ("_k", "_b", "ham", "TN_energy")),
+             "returns-none": r is None}
+        if not d["state-ham-and-energy-network-set"]:
+            return d
+        K, B, H, E = (cx.fields(S[k]) for k in ("_k", "_b", "ham", "TN_energy"))
+        Hin = cx.pre(a.ham)
+        news = [S["_k"], S["_b"], S["ham"]]
+        d["internal-networks-are-new-objects"] = all(x.oid not in cx.pre_heap for x in news) and \
+            len({x.oid for x in news}) == 3
+        d["ham-untouched"] = same_state(cx.fields(a.ham), Hin)
+        d["kinds"] = K["cls"] == "vec" and B["cls"] == "vec" and H["cls"] == "op"
+        if not d["kinds"] or len(K["layers"]) != 1 or len(B["layers"]) != 1 or len(H["layers"]) != 1:
+            d["single-layers"] = False
+            return d
+        lk, lb, lh = K["layers"][0], B["layers"][0], H["layers"][0]
+        olds = [Hin["_upper_ind_id"], Hin["_lower_ind_id"]]
+        if a.p0 is not None:
+            Pin = cx.pre(a.p0)
+            olds.append(Pin["_site_ind_id"])
+            d["p0-untouched"] = same_state(cx.fields(a.p0), Pin)
+            d["ket-keeps-its-site-id"] = K["_site_ind_id"] == Pin["_site_ind_id"]
+            d["ket-is-p0-unconjugated"] = And(lk.conj == Pin["layers"][0].conj, lk.present == Pin["layers"][0].present)
+        else:
+            d["ket-is-a-fresh-unconjugated-state"] = Not(lk.conj)
+        d["ket-covers-ham"] = Implies(lh.present, lk.present)
+        d["bra-is-the-conjugate-of-ket"] = And(lb.conj == Not(lk.conj), lb.present == lk.present)
+        d["ham-is-the-given-operator-unconjugated"] = And(lh.conj == Hin["layers"][0].conj,
+                                                          lh.present == Hin["layers"][0].present)
+        d["wf-ket"], d["wf-bra"], d["wf-ham"] = wf(K), wf(B), wf(H)
+        d["bra-joins-upper(rows)"] = And(B["_site_ind_id"] == H["_upper_ind_id"], join_ok(lb, "site", lh, "up"))
+        d["ket-joins-lower(columns)"] = And(K["_site_ind_id"] == H["_lower_ind_id"], join_ok(lk, "site", lh, "lo"))
+        d["bra-level-is-fresh"] = distinct_from(B["_site_ind_id"], olds + list(LIT.values()))
+        d["energy-network-is-(bra|ham|ket)"] = layers_eq(E["layers"], (lb, lh, lk))
+        stack_posts(d, "TN_energy", E["layers"])
+        if "TN_norm" in S:
+            N = cx.fields(S["TN_norm"])
+            d["norm-network-is-(bra|eye|ket)"] = len(N["layers"]) == 3 and And(layers_eq((N["layers"][0],), (lb,)),
+                                                                                layers_eq((N["layers"][2],), (lk,)))
+            stack_posts(d, "TN_norm", N["layers"])
+        return d
+
+
+@register
+class DMRGXInit(DMRGContract):
+    """DMRGX.__init__: TN_energy2 = <b| H H |k> in the same convention: b on var_ham1's UP leg, var_ham1's LO leg on
+    var_ham2's UP leg, var_ham2's LO leg on k"""
+
+    target = f"{DMRGF}::DMRGX.__init__"
+    floor = 15
+
+    def mk_inputs(self, cx, case):
+        return with_cx(cx, dict(self=cx.new_obj("DMRG"), ham=new_op(cx, "ham"), p0=new_vec(cx, "p0"),
+                                bond_dims=cx.Opaque("bond_dims"), cutoffs=cx.Opaque("cutoffs"), bsz=cx.Opaque("bsz")))
+
+    def requires_cx(self, cx, a, case):
+        d = REGISTRY[DMRGInit.target].requires_cx(cx, a, NS(name="call", p0="given"))
+        if is_tn(a.p0) and "_site_ind_id" in cx.pre(a.p0):
+            # the literal "__ham2{}__" is used for the middle level: a state that already uses it makes the setter raise
+            d["reserved-id-not-used-by-p0"] = cx.pre(a.p0)["_site_ind_id"] != lit("__ham2{}__")
+        return d
+
+    def call(self, cx, name, args, kwargs, node):
+        if name == "super().__init__":
+            return cx.call_contract(REGISTRY[DMRGInit.target], list(args), kwargs, node, recv=cx.env["self"])
+        return super().call(cx, name, args, kwargs, node)
+
+    def ensures(self, a, r, cx, case):
+        S = cx.fields(a.self)
+        d = {"energy2-network-set": is_tn(S.get("TN_energy2")) and all(is_tn(S.get(k)) for k in ("_k", "_b", "ham"))}
+        if not d["energy2-network-set"]:
+            return d
+        K, B, H, E2 = (cx.fields(S[k]) for k in ("_k", "_b", "ham", "TN_energy2"))
+        Hin, Pin = cx.pre(a.ham), cx.pre(a.p0)
+        L = E2["layers"]
+        d["energy2-network-is-(bra|H|H|ket)"] = len(L) == 4 and And(layers_eq((L[0],), B["layers"]),
+                                                                   layers_eq((L[3],), K["layers"]))
+        if len(L) != 4:
+            return d
+        stack_posts(d, "TN_energy2", L)
+        if L[1].roles == ("up", "lo") and L[2].roles == ("up", "lo"):
+            hin = Hin["layers"][0]
+            d["both-operators-are-the-given-ham-unconjugated"] = And(
+                *[And(l.conj == hin.conj, l.present == hin.present) for l in (L[1], L[2])])
+        d["bra-is-the-conjugate-of-ket"] = L[0].conj == Not(L[3].conj)
+        d["ket-is-p0-unconjugated"] = L[3].conj == Pin["layers"][0].conj
+        d["ket-keeps-its-site-id"] = K["_site_ind_id"] == Pin["_site_ind_id"]
+        d["ham-and-p0-untouched"] = And(same_state(cx.fields(a.ham), Hin), same_state(cx.fields(a.p0), Pin))
+        # the first energy network of the base class is still <b|ham|k>
+        stack_posts(d, "TN_energy", cx.fields(S["TN_energy"])["layers"])
+        return d
